@@ -1667,3 +1667,82 @@ def run_sockets_nonblocking(run, P, request=0x5421):
                               'ioctl(FIONBIO) is handed a value that is not a non-zero constant (%s): the socket stays in blocking mode, and a read made with the global lock held '
                               'can sleep for ever' % vals)
     run.require_count(n >= (3 if run.cfg == 'base' else 1) or run.fixture_mode, 'R-LOCK-WAIT (non-blocking sockets): fewer than 3 ioctl(FIONBIO) calls found')
+
+
+def run_inserted_detached(run, P, node_rec='coap_queue_t', insert='coap_insert_node'):
+    """R-TIMER-REC (an inserted node is detached): coap_insert_node() leaves `node->next` alone when the queue is empty, so a node that comes off
+    another queue (`q = X->delayqueue | X->sendqueue | p->next`) is handed to a function through which it reaches coap_insert_node()'s node
+    parameter only after `q->next = NULL` on the path.  A stale link makes the tail of the queue it left part of the send queue as well:
+    the same nodes are then sent and freed from both."""
+    run.rule('R-TIMER-REC')
+    # functions whose i-th parameter reaches the node parameter of the inserter
+    ins = {(insert, 1)}
+    changed = True
+    while changed:
+        changed = False
+        for f in P.lib_funcs():
+            ps = ['v%d' % p.get('id') for p in f.get('params', [])]
+            for b, ev in P.events(f):
+                t = ev['e']
+                if t.get('k') != 'call':
+                    continue
+                for i, a in enumerate(t.get('a') or ()):
+                    if (t.get('fn'), i) in ins and ap(a) in ps and (f['name'], ps.index(ap(a))) not in ins:
+                        ins.add((f['name'], ps.index(ap(a)))); changed = True
+    n = 0
+    for f in sorted(P.lib_funcs(), key=lambda f: f['name']):
+        B = f['B']
+        for b, ev in P.events(f):
+            t = ev['e']
+            if t.get('k') == 'asg' and ev.get('top') and t.get('op') == '=' and isinstance(strip(t['l']), dict) and strip(t['l']).get('k') == 'var':
+                lhs, r = ap(t['l']), strip(t['r'])
+            elif t.get('k') == 'decl' and len(t.get('d') or ()) == 1 and t['d'][0].get('init'):
+                lhs, r = 'v%d' % t['d'][0].get('id'), strip(t['d'][0]['init'])
+            else:
+                continue
+            if not (lhs and isinstance(r, dict) and r.get('k') == 'mem' and r.get('f') in ('delayqueue', 'sendqueue', 'next')):
+                continue
+            if r.get('f') == 'next' and r.get('rec') != node_rec:
+                continue
+            # does the local reach an inserter at all?
+            work, seen, bad, used = [(b['id'], ev)], set(), None, False
+            while work and not bad:
+                bid, after = work.pop()
+                evs = B[bid]['elems']
+                if after is not None:
+                    idx = [i for i, e in enumerate(evs) if e is after]
+                    evs = evs[idx[0] + 1:] if idx else evs
+                stop = False
+                for e2 in evs:
+                    t2 = e2['e']
+                    if t2.get('k') == 'asg' and t2.get('op') == '=':
+                        l2 = strip(t2['l'])
+                        if ap(l2) == lhs:
+                            stop = True; break          # the local names another node now
+                        if isinstance(l2, dict) and l2.get('k') == 'mem' and l2.get('f') == 'next' and ap(l2.get('b')) == lhs and (is_null_const(t2['r']) or const_int(t2['r']) == 0):
+                            stop = True; break          # detached
+                    if t2.get('k') == 'call':
+                        for i, a in enumerate(t2.get('a') or ()):
+                            if (t2.get('fn'), i) in ins and ap(a) == lhs:
+                                used = True; bad = e2; break
+                        if bad:
+                            break
+                if stop or bad or B[bid].get('noret'):
+                    continue
+                for s_ in succs(B[bid]):
+                    if s_ not in seen:
+                        seen.add(s_); work.append((s_, None))
+            # an instance only where the local is handed to an inserter somewhere in the function
+            handed = any(e2['e'].get('k') == 'call' and any((e2['e'].get('fn'), i) in ins and ap(a) == lhs for i, a in enumerate(e2['e'].get('a') or ()))
+                         for b2, e2 in P.events(f))
+            if not handed:
+                continue
+            n += 1
+            run.instance('R-TIMER-REC', '%s: node taken from ->%s (%s) and handed to an inserter' % (f['name'], r.get('f'), ev['loc'].rsplit(':', 1)[-1]))
+            run.oblige('R-TIMER-REC', not bad, '%s:inserted-detached' % f['name'])
+            if bad:
+                run.violation('R-TIMER-REC', f['name'], bad['loc'], 'inserted-with-stale-link',
+                              'the node comes off a queue (%s) and reaches %s without its `->next = NULL` on the path: %s() keeps node->next when the queue is empty, so the rest of the '
+                              'queue the node left is linked into the send queue as well (sent twice, freed twice)' % (short(t)[:50], short(bad['e'])[:50], insert))
+    run.require_count(n >= 1 or run.fixture_mode, 'R-TIMER-REC (inserted node detached): no node taken off a queue and handed to coap_insert_node() found')
+    return n
